@@ -6,8 +6,8 @@ import impl_pyd  # noqa: F401
 from framework import Case
 
 PROP = "C17"
-GENERATED = ['DtypeTables', 'Classes', 'SrcPydantic', 'PydHook', 'Core', 'ShapeLoop', 'Resolve']  # generated files this check's tie depends on
-LEAN_MODULES = ["Properties.C17", "Properties.CoreClasses", "Properties.Prov.Pydantic", "Properties.CorePyd", "Properties.Core", "Properties.CoreShape", "Properties.CoreResolve"]
+GENERATED = ['DtypeTables', 'Classes', 'SrcPydantic', 'PydHook', 'Core', 'ShapeLoop', 'Resolve', 'SrcSurface']  # generated files this check's tie depends on
+LEAN_MODULES = ["Properties.C17", "Properties.CoreClasses", "Properties.Prov.Pydantic", "Properties.CorePyd", "Properties.Core", "Properties.CoreShape", "Properties.CoreResolve", "Properties.Prov.Surface"]
 RULE = (
     "corpus; seeded models of 1-4 fields (annotated tensor fields over the context dimension alphabet, optional fields, plain int fields; base "
     "types np.ndarray, np.ndarray[Any, np.dtype[..]], npt.NDArray[..], torch.Tensor, jax.Array; validate_assignment on/off), each with 1-3 "
@@ -108,6 +108,15 @@ def cases(tier, rng, run):
                     out.append(Case(f"PYD\tva=0\tF|x|{base}=" + "+".join("0:" + d for d in decl) + f"|{c},0,a b", "classdef2", {"want": "reject"}))
             if len(oks) >= 2:
                 out.append(Case(f"PYD\tva=0\tF|x|{base}=0:{oks[0]}+0:{oks[1]}|{c},0,a b", "classdef2", {"want": "ok"}))
+    # abstract scalar classes (`np.floating[Any]`, `np.integer[Any]`, `np.complexfloating[Any, Any]`, bare `np.floating`) as the declared
+    # type: they are not a dtype of any class, so every class that restricts dtypes refuses them at class definition
+    for c in translate.CLASSES:
+        restricts = not all(acc(c, "0:" + d) for d in NP_SCALARS)
+        for base in ("npt", "nd"):
+            for ab in ("floating[Any]", "integer[Any]", "signedinteger[Any]", "complexfloating[Any,Any]", "floating", "number[Any]"):
+                if "," in ab and base == "nd":
+                    continue
+                out.append(Case(f"PYD\tva=0\tF|x|{base}=0:{ab}|{c},0,a b", "classdef2", {"want": "reject" if restricts else "ok"}))
     for _ in range(2500 if tier == "quick" else 40000):
         l = gen_line(rng)
         if rng.random() < 0.3:
